@@ -429,6 +429,18 @@ func (d *driver) analyze(res *runResult) {
 			prop = d.prop
 		}
 		res.rep.Findings = append(res.rep.Findings, oracle.Finding{Prop: prop, Rule: "process-died", Sig: sig, Msg: res.died + fmt.Sprintf(" (exit %d)", res.exit)})
+		// the library's own assertion that an entry continues the log
+		// (storage.appendEntry): what the event-based rule append-not-at-end
+		// would report, had the process lived to emit the event (C04)
+		if i := strings.Index(text, "raft.assert("); i >= 0 {
+			rest := text[i:]
+			if len(rest) > 400 {
+				rest = rest[:400]
+			}
+			if strings.Contains(rest, "(*storage).appendEntry(") {
+				res.rep.Findings = append(res.rep.Findings, oracle.Finding{Prop: "C04", Rule: "append-not-at-end", Sig: "append-not-at-end:assertion", Msg: "the node appends an entry that does not continue its log: the library's own assertion in storage.appendEntry ends the process (" + res.died + ")"})
+			}
+		}
 		// reads of invalidated log data by replication / state machine belong to C09 as well
 		if strings.Contains(text, "replication") || strings.Contains(text, "stateMachine") || strings.Contains(text, "ViewAt") {
 			if strings.Contains(text, "unexpected fault address") || strings.Contains(text, "nil pointer") {
